@@ -17,6 +17,7 @@
 import Gozod.Model.UVal
 import Gozod.Model.ChecksC
 import Gozod.Model.ChecksShape
+import Gozod.Model.RawClassSpec
 import Gozod.Drv.C10
 namespace Gozod.Drv.C10U
 open Gozod Gozod.UVal
@@ -24,12 +25,6 @@ open Gozod.Drv.C10 (hex unhex splitOnce sortedLt)
 
 abbrev Chk := Check UPred UOw
 abbrev Pipe := PipelineK UPred UOw Nat
-
-/-- The checks that are vacuous on a raw (pointer) payload of a container schema: the built-in length
-    checks and the `Check(fn)` wrappers (types/slice.go:314, types/object.go:910). -/
-def vacU : UPred → Bool
-  | .lmin _ | .lmax _ | .llen _ | .multi _ => true
-  | _ => false
 
 def encU : UV → String
   | .str b => hex b
@@ -82,17 +77,32 @@ def parseChecks : Nat → List String → Option (List Chk × List String)
     let (cs, r) ← parseChecks n r
     pure (c :: cs, r)
 
-/-- (tag, kind) of every base schema in the token stream. -/
-def baseKinds : List String → List (Nat × String)
-  | "B" :: tag :: kind :: r => (match tag.toNat? with | some t => [(t, kind)] | none => []) ++ baseKinds r
+/-- (tag, kind, schema type key) of every base schema in the token stream; the key is the kind, with `p` appended
+    for the pointer constructors (`StringPtr()`, `IntPtr()`): the row of `Gen.rawClass` / `Gen.owClass`. -/
+def baseKinds : List String → List (Nat × String × String)
+  | "B" :: tag :: kind :: ptr :: r =>
+    (match tag.toNat? with | some t => [(t, kind, if ptr == "1" then kind ++ "p" else kind)] | none => []) ++ baseKinds r
   | _ :: r => baseKinds r
   | [] => []
 
 /-- Which values base schema `tag` takes as values of its own type. -/
-def tyOf (kinds : List (Nat × String)) (tag : Nat) (v : UV) : Bool :=
+def tyOf (kinds : List (Nat × String × String)) (tag : Nat) (v : UV) : Bool :=
   match kinds.find? (·.1 == tag) with
-  | some (_, k) => v.kind == k
+  | some (_, k, _) => v.kind == k
   | none => true
+
+/-- The column of `Gen.rawClass` a predicate belongs to. -/
+def checkKind : UPred → String
+  | .custom _ => "ref"
+  | .multi _ => "chk"
+  | _ => "builtin"
+
+/-- The pointer-pass class of base schema `tag`, read from the table regenerated from the current tree
+    (`Gozod.RawClassSpec.rawOf / owOf` look the cell up in `Gen.rawClass` / `Gen.owClass`). -/
+def clsOf (kinds : List (Nat × String × String)) (tag : Nat) : BaseClass UPred :=
+  match kinds.find? (·.1 == tag) with
+  | some (_, k, key) => ⟨fun p => Gozod.RawClassSpec.rawOf key (checkKind p), Gozod.RawClassSpec.owOf key, k == "l" || k == "o"⟩
+  | none => ⟨fun _ => .run, .cook, false⟩
 
 def parsePipe : Nat → List String → Option (Pipe × List String)
   | 0, _ => none
@@ -180,8 +190,8 @@ def expandIssues (p : Pipe) (log : List (PEv UV)) (tag : Nat) (is : List Nat) : 
       | some v => List.replicate (issueCount k v) pos
       | none => [pos]
 
-def modelObs (kinds : List (Nat × String)) (p : Pipe) (v : UV) (ptrIn : Bool) : Obs :=
-  let r := parsePipelineT UVal.env vacU (tyOf kinds) p v ptrIn
+def modelObs (kinds : List (Nat × String × String)) (p : Pipe) (v : UV) (ptrIn : Bool) : Obs :=
+  let r := parsePipelineG UVal.env (clsOf kinds) (tyOf kinds) p v ptrIn
   let out := match r.out with
     | .ok x => .ok x
     | .error (tag, is) => .error (tag, expandIssues p r.log tag is)
@@ -224,11 +234,11 @@ def Obs.renderS (o : Obs) : String :=
 
 /-! the spec oracle: judge an observation by the property's clauses (seenAt / failsAt / abortAt only) -/
 
-def specEval (kinds : List (Nat × String)) : Pipe → UV → (Except Nat UV) × List (Nat × UV)
+def specEval (kinds : List (Nat × String × String)) : Pipe → UV → (Except (Nat × Bool) UV) × List (Nat × UV)
   | .base tag _ _ cs, v =>
-    if !tyOf kinds tag v then (.error typeErrTag, [(tag, v)]) else
+    if !tyOf kinds tag v then (.error (tag, true), [(tag, v)]) else      -- THIS stage rejects a value of another type
     let anyFail := (List.range cs.length).any fun k => failsAt UVal.env cs k v
-    (if anyFail then .error tag else .ok (seenAt UVal.env cs cs.length v), [(tag, v)])
+    (if anyFail then .error (tag, false) else .ok (seenAt UVal.env cs cs.length v), [(tag, v)])
   | .transform s _ k, v =>
     match specEval kinds s v with
     | (.ok x, ins) => (.ok (customTr k x), ins)
@@ -238,7 +248,7 @@ def specEval (kinds : List (Nat × String)) : Pipe → UV → (Except Nat UV) ×
     | (.ok x, ins) => let (r, ins2) := specEval kinds b x; (r, ins ++ ins2)
     | (.error t, ins) => (.error t, ins)
 
-def specTransforms (kinds : List (Nat × String)) : Pipe → UV → List (Nat × UV)
+def specTransforms (kinds : List (Nat × String × String)) : Pipe → UV → List (Nat × UV)
   | .base .., _ => []
   | .transform s i _, v =>
     match (specEval kinds s v).1 with
@@ -257,7 +267,7 @@ def dedup : List Nat → List Nat
   | a :: b :: r => if a == b then dedup (b :: r) else a :: dedup (b :: r)
   | l => l
 
-def judge (kinds : List (Nat × String)) (p : Pipe) (v : UV) (o : Obs) : Option String :=
+def judge (kinds : List (Nat × String × String)) (p : Pipe) (v : UV) (o : Obs) : Option String :=
   let (ref, ins) := specEval kinds p v
   let inputOf := fun tag => (ins.find? (·.1 == tag)).map (·.2)
   let evBad := o.log.find? fun e =>
@@ -283,9 +293,9 @@ def judge (kinds : List (Nat × String)) (p : Pipe) (v : UV) (o : Obs) : Option 
   | .ok x, .ok y => if x == y then none else some "result-value"
   | .ok _, .error _ => some "rejected-though-no-check-fails"
   | .error _, .ok _ => some "accepted-though-a-check-fails"
-  | .error t, .error (t', isRaw) =>
+  | .error (t, isTy), .error (t', isRaw) =>
     if t != t' then some "wrong-schema-fails" else
-    if t == typeErrTag then none else          -- the stage that receives a value of another type rejects it
+    if isTy then (if isRaw == [typeErrPos] then none else some "checks-reported-on-a-value-of-another-type") else
     match baseChecks p t, inputOf t with
     | some cs, some vin =>
       let is := dedup isRaw
@@ -368,7 +378,10 @@ def handleShape (line : String) : String :=
   | _ => "bad-op"
 
 def handleAny (line : String) : String :=
-  if line.startsWith "c10shape " then handleShape line
+  if line.startsWith "c10raw offenders" then
+    let off := Gozod.RawClassSpec.offenders
+    (if off.isEmpty then "rawclass-ok" else " ; ".intercalate off) ++ "\t-"
+  else if line.startsWith "c10shape " then handleShape line
   else if line.startsWith "c10u " then handleU line
   else Gozod.Drv.C10.handleLine line
 
